@@ -206,6 +206,9 @@ func (qz *quantizer) prov(v ssa.Value, d int) string {
 				st := fa.X.Type().Underlying().(*types.Pointer).Elem().Underlying().(*types.Struct)
 				return qz.prov(fa.X, d+1) + "." + st.Field(fa.Field).Name()
 			}
+			if inner := qz.prov(t.X, d+1); strings.HasPrefix(inner, "&cell:") {
+				return strings.TrimPrefix(inner, "&cell:")
+			}
 			return "*" + qz.prov(t.X, d+1)
 		}
 		return t.Op.String() + qz.prov(t.X, d+1)
@@ -267,6 +270,43 @@ func (qz *quantizer) boolOf(v ssa.Value, phis map[*ssa.Phi]*qf) *qf {
 			return qNot(qz.boolOf(t.X, phis))
 		}
 	case *ssa.Call:
+		if callee := t.Call.StaticCallee(); callee != nil && !qz.p.InModule(callee) {
+			base := callee.Name()
+			if o := callee.Origin(); o != nil {
+				base = o.Name()
+			}
+			pkg := ""
+			if o := callee.Origin(); o != nil && o.Pkg != nil {
+				pkg = o.Pkg.Pkg.Path()
+			} else if callee.Pkg != nil {
+				pkg = callee.Pkg.Pkg.Path()
+			}
+			if pkg == "slices" && base == "ContainsFunc" && len(t.Call.Args) == 2 {
+				// ∃ e ∈ s. f(e)
+				if mc, ok := t.Call.Args[1].(*ssa.MakeClosure); ok {
+					fn := mc.Fn.(*ssa.Function)
+					qz.nloops++
+					name := fmt.Sprintf("e%d", qz.nloops)
+					coll := qz.prov(t.Call.Args[0], 0)
+					// bind the closure's parameter and free variables
+					qz.elemVar[fn.Params[0]] = name
+					for i, fv := range fn.FreeVars {
+						if i < len(mc.Bindings) {
+							qz.elemVar[fv] = qz.provCell(mc.Bindings[i])
+						}
+					}
+					qz.depth++
+					cx := &quantCtx{fn: fn, result: 0, phis: map[*ssa.Phi]*qf{}, headers: map[*ssa.BasicBlock]bool{}}
+					body := qz.block(cx, fn.Blocks[0], nil)
+					qz.depth--
+					delete(qz.elemVar, fn.Params[0])
+					for _, fv := range fn.FreeVars {
+						delete(qz.elemVar, fv)
+					}
+					return &qf{Op: "exists", Coll: coll, Var: name, Args: []*qf{body}}
+				}
+			}
+		}
 		if callee := t.Call.StaticCallee(); callee != nil && qz.p.InModule(callee) && qz.depth < 3 {
 			// inline the callee's own formula when it contains loops (quantifiers); otherwise an atom
 			if hasLoop(callee) {
@@ -663,4 +703,23 @@ func polarityOf(q *qf, match func(coll string) bool, pos bool, acc *[]string) {
 			polarityOf(a, match, pos, acc)
 		}
 	}
+}
+
+// provCell: provenance of a variable captured by a closure: the captured value, or — for a cell
+// captured by reference — the single value stored into it.
+func (qz *quantizer) provCell(v ssa.Value) string {
+	if al, ok := v.(*ssa.Alloc); ok {
+		var stored ssa.Value
+		n := 0
+		for _, r := range *al.Referrers() {
+			if st, ok := r.(*ssa.Store); ok && st.Addr == ssa.Value(al) {
+				stored = st.Val
+				n++
+			}
+		}
+		if n == 1 {
+			return "&cell:" + qz.prov(stored, 0)
+		}
+	}
+	return qz.prov(v, 0)
 }
